@@ -281,16 +281,23 @@ func c08CombShapes(k int) []c08Shape {
 
 // family (ii): the block family — every combination of the six block-forming dimensions (each absent or
 // in one of its variants), because the match blocks interact through the two scratch mark bits.
-func c08BlockShapes(actions []string) []c08Shape {
+func c08BlockShapes(actions []string, netVariants []string) []c08Shape {
 	type opt []c08DV
 	portOpts := func(ports, named string) []opt {
 		return []opt{nil, {{ports, "s16"}}, {{ports, "r1"}, {named, "1"}}}
 	}
+	netOpts := func(d string) []opt {
+		out := []opt{nil}
+		for _, v := range netVariants {
+			out = append(out, opt{{d, v}})
+		}
+		return out
+	}
 	dimsOpts := [][]opt{
 		portOpts("srcPorts", "srcNamed"),
 		portOpts("dstPorts", "dstNamed"),
-		{nil, {{"srcNet", "1"}}, {{"srcNet", "2"}}, {{"srcNet", "3"}}},
-		{nil, {{"dstNet", "1"}}, {{"dstNet", "2"}}, {{"dstNet", "3"}}},
+		netOpts("srcNet"),
+		netOpts("dstNet"),
 		{nil, {{"notSrcNet", "1"}}, {{"notSrcNet", "2"}}},
 		{nil, {{"notDstNet", "1"}}, {{"notDstNet", "2"}}},
 	}
@@ -429,7 +436,18 @@ func c08Packets(r *proto.Rule, ipv int, marks []uint32, thorough bool) []c08Pkt 
 	protoish := r.Protocol != nil || r.NotProtocol != nil || r.Icmp != nil || r.NotIcmp != nil
 	protos := []int{refpol.ProtoTCP, icmpP}
 	if protoish {
-		protos = []int{refpol.ProtoTCP, refpol.ProtoUDP, icmpP, refpol.ProtoSCTP}
+		protos = []int{refpol.ProtoTCP, refpol.ProtoUDP, icmpP}
+		for _, rp := range []*proto.Protocol{r.Protocol, r.NotProtocol} {
+			if rp != nil {
+				if n, ok := refpol.ProtocolNumber(rp); ok {
+					protos = append(protos, n)
+				}
+			}
+		}
+		if thorough {
+			protos = append(protos, refpol.ProtoSCTP)
+		}
+		protos = c08Uniq(protos)
 	}
 	sports := c08Uniq(append(append(c08PortProbes(r.SrcPorts, thorough), c08PortProbes(r.NotSrcPorts, thorough)...), 5000))
 	dports := c08Uniq(append(append(c08PortProbes(r.DstPorts, thorough), c08PortProbes(r.NotDstPorts, thorough)...), 5000))
@@ -830,18 +848,18 @@ func TestVerif_C08(t *testing.T) {
 		}
 
 		thorough := c.Thorough()
-		k := c.Pick(2, 3)
+		k := c.Pick(3, 3)
 		if v := os.Getenv("VERIF_C08_K"); v != "" {
 			fmt.Sscan(v, &k)
 		}
 		var shapes []c08Shape
 		shapes = append(shapes, c08CombShapes(k)...)
 		nComb := len(shapes)
-		blockActions := []string{"allow", "deny"}
+		blockActions, blockNets := []string{"allow", "deny"}, []string{"1", "2"}
 		if thorough {
-			blockActions = []string{"allow", "deny", "pass", "log"}
+			blockActions, blockNets = []string{"allow", "deny", "pass", "log"}, []string{"1", "2", "3"}
 		}
-		shapes = append(shapes, c08BlockShapes(blockActions)...)
+		shapes = append(shapes, c08BlockShapes(blockActions, blockNets)...)
 		c.Extra("shapes_comb", nComb)
 		c.Extra("shapes_block_family", len(shapes)-nComb)
 		c.Extra("max_nondefault_dims", k)
@@ -860,6 +878,9 @@ func TestVerif_C08(t *testing.T) {
 		for i, s := range shapes {
 			block := i >= nComb
 			fams := c08Families(s)
+			if block && !thorough {
+				fams = []int{4}
+			}
 			for _, f := range fams {
 				s2 := c08Shape{DV: s.DV, Family: f}
 				if _, ok := c08Build(s2); !ok {
@@ -871,7 +892,7 @@ func TestVerif_C08(t *testing.T) {
 				seen[s2.sig()] = true
 				j := job{shape: s2, ipvs: []int{4, 6}, flows: []bool{false, true}}
 				if !thorough {
-					if len(fams) == 1 && s.get("ipVersion") == "" {
+					if (len(fams) == 1 && s.get("ipVersion") == "") || block {
 						j.ipvs = []int{4}
 					}
 					if block || len(s.DV) > 2 {
